@@ -32,7 +32,11 @@ def ranges(name, tier):
     fn = T[name]
     out = []
     for leaf, (q, t) in fn.leaves.items():
-        lo, hi = q if tier == "quick" else t
+        if tier == "quick":
+            lo, hi = q
+        else:
+            # thorough: the quick range extended by one value on each side, within the declared outer bounds
+            lo, hi = max(t[0], q[0] - 1), min(t[1], q[1] + 1)
         out.append((leaf, lo, hi))
     return out
 
